@@ -9,7 +9,7 @@
 From Coq Require Import List Arith ZArith QArith Reals Bool Lia.
 From TLV Require Import Base.Shape Base.Tensor Base.RSum Model.Structure Proofs.StructureProofs Proofs.StructureProofs2
   Proofs.StructureProofs3 Proofs.StructureProofs4 Proofs.StructureProofsQ Proofs.StructureProofsR Proofs.StructureNormR
-  Base.BigSum Proofs.StructureConj Proofs.StructureConjR Proofs.StructureConjCompose Model.StructureHooi Proofs.StructureHooiProofs Proofs.StructureHooiConj.
+  Base.BigSum Proofs.StructureConj Proofs.StructureConjR Proofs.StructureConjCompose Model.StructureHooi Proofs.StructureProofs5 Proofs.StructureHooiProofs Proofs.StructureHooiConj.
 From TLV Require Import Model.StructureQ.
 Import ListNotations.
 Local Open Scope nat_scope.
@@ -177,6 +177,39 @@ Proof. exact tucker_fixed_structure. Qed.
 Print Assumptions C08_tucker_fixed_structure.
 Example C08_tucker_fixed_ex : tucker_fixed [4; 5; 6] [2; 3; 4] [0] = Ok [[2; 3; 4]; [4; 2]; [5; 3]; [6; 4]].
 Proof. reflexivity. Qed.
+(* partial_tucker on a list of modes (any order, any subset): factor j is I_m x min(rank_j, I_m) for m = modes_j, the core keeps the size of
+   the unlisted modes and, for distinct listed modes, has the factor's number of columns on the listed ones (induction over the listed modes) *)
+Theorem C08_partial_tucker_structure : forall shape rank modes out, partial_tucker shape rank modes = Ok out ->
+  exists core factors, out = core :: factors /\ length core = length shape /\ length factors = length modes /\ length rank = length modes /\
+  (forall j, j < length modes -> nth j modes 0 < length shape /\
+     nth j factors [] = [nth (nth j modes 0) shape 0; Nat.min (nth j rank 0) (nth (nth j modes 0) shape 0)]) /\
+  (forall m, m < length shape -> ~ In m modes -> nth m core 0 = nth m shape 0) /\
+  (NoDup modes -> forall j, j < length modes -> nth (nth j modes 0) core 0 = Nat.min (nth j rank 0) (nth (nth j modes 0) shape 0)).
+Proof. exact partial_tucker_structure. Qed.
+Print Assumptions C08_partial_tucker_structure.
+(* rank=None ("the decomposition will preserve the original size"): the core has the shape of the tensor, every factor is square *)
+Theorem C08_partial_tucker_rank_none : forall shape modes out, NoDup modes -> partial_tucker_spec shape None modes = Ok out ->
+  exists core factors, out = core :: factors /\ core = shape /\
+  forall j, j < length modes -> nth j factors [] = [nth (nth j modes 0) shape 0; nth (nth j modes 0) shape 0].
+Proof. exact partial_tucker_none. Qed.
+Print Assumptions C08_partial_tucker_rank_none.
+(* partial_tucker(init='random', n_iter_max=0) (after 7b9d0bb): the drawn core and factors are returned; the core has the tensor's shape with
+   rank_j at position modes_j (not clipped), factor j is I_m x rank_j *)
+Theorem C08_partial_tucker_random0_structure : forall shape rank modes out, partial_tucker_random0 shape rank modes = Ok out ->
+  exists core factors, out = core :: factors /\ length core = length shape /\ length factors = length modes /\
+  (forall j, j < length modes -> nth j factors [] = [nth (nth j modes 0) shape 0; nth j rank 0]) /\
+  (forall m, m < length shape -> ~ In m modes -> nth m core 0 = nth m shape 0) /\
+  (NoDup modes -> forall j, j < length modes -> nth (nth j modes 0) core 0 = nth j rank 0).
+Proof. exact partial_tucker_random0_structure. Qed.
+Print Assumptions C08_partial_tucker_random0_structure.
+(* regression witness: before 7b9d0bb the random core had one axis per LISTED mode (shape (3,4,2), modes [1]: core (4) instead of (3,4,2)) *)
+Example C08_before_7b9d0bb_random_core_ex :
+  partial_tucker_random0_old [3; 4; 2] [4] [1] = Ok [[4]; [4; 4]] /\ partial_tucker_random0 [3; 4; 2] [4] [1] = Ok [[3; 4; 2]; [4; 4]] /\
+  partial_tucker_random0_old [3; 4] [2; 3] [1; 0] = Ok [[2; 3]; [4; 2]; [3; 3]] /\ partial_tucker_random0 [3; 4] [2; 3] [1; 0] = Ok [[3; 2]; [4; 2]; [3; 3]].
+Proof. exact partial_tucker_random0_old_witness. Qed.
+Example C08_partial_tucker_spec_ex : partial_tucker_spec [3; 4; 2] (Some (RInt 3)) [2; 0] = Ok [[3; 4; 2]; [2; 2]; [3; 3]] /\
+  partial_tucker_spec [3; 4; 2] None [1] = Ok [[3; 4; 2]; [4; 4]] /\ partial_tucker_spec [3; 4; 2] (Some (RList [5; 1])) [1; 2] = Ok [[3; 4; 1]; [4; 4]; [2; 1]].
+Proof. exact partial_tucker_spec_ex. Qed.
 (* regression witnesses: before 86b5335 the ranks of the updated modes were read at the wrong positions of the rank list; the
    shapes were the requested ones only for equal ranks or trailing fixed modes *)
 Theorem C08_tucker_fixed_old_constant_rank_partial : forall shape r fixed,
